@@ -73,6 +73,7 @@ pub fn seq_case_from_bytes(data: &[u8]) -> SeqCase {
         weight_mode: if byte(u) % 3 == 0 { WeightMode::Default } else { WeightMode::Table((0..(1 + byte(u) % 4)).map(|_| 1 + (byte(u) % 60) as i64).collect()) },
         start_ns: (byte(u) % 8) as u64 * 1_000_000_000 + pick(u, &[0u64, 999_999_999, 500_000_000]),
         noise_readers: 0,
+        prelude: if byte(u) % 8 == 0 { Some(Prelude { counters: 64, shards: pick(u, &[2usize, 4, 256]), cmd_buf: 8, pool: pick(u, &[2usize, 8, 32]), buf: pick(u, &[1usize, 64]), keys: 1 + byte(u) % 8, reads: byte(u) % 30, keep_alive: byte(u) % 2 == 0 }) } else { None },
     };
     let mut ops = Vec::new();
     while !u.is_empty() && ops.len() < 80 {
